@@ -14,6 +14,10 @@ def scenarios(tier):
     s = [Scenario('ms-lfrc-1push-1pop-K2', MT, ['QSEL=4', 'RECL=10', 'NPUSH1=1', 'NPOP2=1'], threads=2, K=2, unwind=3, cover=[1, 2]),
          Scenario('ms-lfrc-2push-1pop-K2', MT, ['QSEL=4', 'RECL=10', 'NPUSH1=2', 'NPOP2=1'], threads=2, K=2, unwind=3, cover=[1, 2]),
          Scenario('ms-lfrc-prefill1-1push-2pop-K2', MT, ['QSEL=4', 'RECL=10', 'PREFILL=1', 'NPUSH1=1', 'NPOP2=2'], threads=2, K=2, unwind=3, cover=[1, 2])]
+    # deterministic configuration instances of ramalhete_queue (decided by constant folding, replayed natively)
+    s.append(Scenario('ramalhete-epn4-fifo-across-nodes', 'Q/queue_seq.cpp', ['QSEL=5', 'RECL=10', 'EPN=4', 'FIXED_SEQ=9'], unwind=4, cover=[1]))
+    s.append(Scenario('ramalhete-epn22-fifo', 'Q/queue_seq.cpp', ['QSEL=5', 'RECL=10', 'EPN=22', 'FIXED_SEQ=5'], unwind=4, cover=[1],
+                      note='entries_per_node divisible by the internal step size 11: known finding F5'))
     if tier == 'thorough':
         s += [Scenario('ms-lfrc-1push-1pop-K3', MT, ['QSEL=4', 'RECL=10', 'NPUSH1=1', 'NPOP2=1'], threads=2, K=3, unwind=3, cover=[1, 2]),
               Scenario('ms-lfrc-2push-2pop-K3', MT, ['QSEL=4', 'RECL=10', 'NPUSH1=2', 'NPOP2=2'], threads=2, K=3, unwind=3, cover=[1, 2]),
